@@ -67,18 +67,21 @@ int c_aggregate(int nval, int operator, int maxnan, int * aggindex,
         if(isnan(inp))
         {
             nagg_nan ++;
-            inp = 0;
-        } else
+        }
+        else
+        {
             nagg ++;
 
-        if(operator<=1) {
-            agg += inp;
-        }
-        else if (operator == 2){
-            agg = inp > agg ? inp : agg;
-        }
-        else if (operator == 3){
-            agg = inp;
+            if(operator<=1) {
+                agg += inp;
+            }
+            else if (operator == 2){
+                /* first valid value of the group or larger value */
+                agg = (nagg == 1 || inp > agg) ? inp : agg;
+            }
+            else if (operator == 3){
+                agg = inp;
+            }
         }
     }
 
